@@ -1,5 +1,7 @@
 # -*- coding: utf-8 -*-
+import math
 import re
+from fractions import Fraction
 import fnmatch
 import itertools
 from .._compat import integer_types, number_types, string_types
@@ -91,6 +93,32 @@ def plain_number(number):
     if type(number) in (int, float, bool) or not isinstance(number, (int, float)):
         return number
     return int(number) if isinstance(number, int) else float(number)
+
+
+def exact_sum(numbers):
+    """ The sum of the numbers, rounded once.  The interpreter's sum() compensates for the rounding of
+    floats only as long as every item is a float: a whole number among them (every whole-number
+    literal is one) made SUM(10000000000000000,1.0,-10000000000000000) 0 and the result depend on
+    the order of the items. """
+    numbers = [plain_number(number) for number in numbers]
+    if not all(isinstance(number, (int, float)) for number in numbers):
+        return sum(numbers)
+    whole = sum(number for number in numbers if isinstance(number, int))
+    floats = [number for number in numbers if isinstance(number, float)]
+    if not floats:
+        return whole
+    if not all(math.isfinite(number) for number in floats):
+        return sum(floats) + whole
+    try:
+        try:
+            part = math.fsum(floats)  # exactly rounded
+        except OverflowError:  # a partial sum beyond the largest double: the sum itself need not be
+            part = sum(Fraction(number) for number in floats)
+        if abs(whole) <= 2**53 and isinstance(part, float):
+            return whole + part
+        return float(Fraction(whole) + Fraction(part))
+    except OverflowError:
+        return error.NUM
 
 
 def inumbers(l, try_parse=False, text_is_zero=False):
